@@ -154,6 +154,8 @@ fn rs_files(dir: &Path, out: &mut Vec<PathBuf>) {
 }
 
 pub struct Corpus {
+    /// identifiers harvested from the crate's quote! templates: (type-like, value-like)
+    pub template_idents: (Vec<String>, Vec<String>),
     pub inputs: Vec<Input>,
     pub sites: usize,
     pub by_origin: BTreeMap<String, usize>,
@@ -194,5 +196,75 @@ pub fn harvest(repo: &Path) -> Corpus {
         seen.entry(r.text.clone()).or_insert(r);
     }
     let inputs: Vec<Input> = seen.into_values().collect();
-    Corpus { inputs, sites, by_origin }
+    let template_idents = template_idents(repo);
+    crate::gen::set_template_vocab(&template_idents.0, &template_idents.1);
+    Corpus { template_idents, inputs, sites, by_origin }
+}
+
+/// Identifiers the crate's own `quote!` templates spell out (generic parameter names such as `H`,
+/// helper type names, local bindings such as `f`, `state`, `other`): harvested at check time so
+/// that the generator can give *user* items the very names the generated code uses internally.
+pub fn template_idents(repo: &Path) -> (Vec<String>, Vec<String>) {
+    fn walk(ts: TokenStream, inside: bool, upper: &mut std::collections::BTreeSet<String>, lower: &mut std::collections::BTreeSet<String>) {
+        let toks: Vec<TokenTree> = ts.into_iter().collect();
+        let mut i = 0;
+        while i < toks.len() {
+            match &toks[i] {
+                TokenTree::Ident(id) if !inside && (id == "quote" || id == "format_ident") => {
+                    if matches!(toks.get(i + 1), Some(t) if is_punct(t, '!')) {
+                        if let Some(TokenTree::Group(g)) = toks.get(i + 2) {
+                            walk(g.stream(), true, upper, lower);
+                            i += 3;
+                            continue;
+                        }
+                    }
+                },
+                TokenTree::Ident(id) if inside => {
+                    let interpolated = i > 0 && is_punct(&toks[i - 1], '#');
+                    let name = id.to_string();
+                    const KW: [&str; 30] = [
+                        "fn", "let", "mut", "ref", "match", "if", "else", "impl", "for", "where", "self", "Self", "struct", "enum",
+                        "return", "as", "in", "use", "pub", "const", "static", "type", "trait", "unsafe", "move", "loop", "while",
+                        "break", "continue", "crate",
+                    ];
+                    if !interpolated && !KW.contains(&name.as_str()) && name.len() <= 24 {
+                        if name.chars().next().map(|c| c.is_uppercase()).unwrap_or(false) {
+                            upper.insert(name);
+                        } else if name != "_" {
+                            lower.insert(name);
+                        }
+                    }
+                },
+                TokenTree::Group(g) => walk(g.stream(), inside, upper, lower),
+                // identifier-like string literals anywhere in the crate: names the macro compares
+                // identifiers against or builds identifiers from (`ident == "H"`, `format_ident!("H")`)
+                TokenTree::Literal(l) => {
+                    let t = l.to_string();
+                    if t.len() >= 3 && t.len() <= 18 && t.starts_with('"') && t.ends_with('"') {
+                        let name = &t[1..t.len() - 1];
+                        if syn::parse_str::<syn::Ident>(name).is_ok() {
+                            if name.chars().next().map(|c| c.is_uppercase()).unwrap_or(false) {
+                                upper.insert(name.to_string());
+                            } else if name != "_" {
+                                lower.insert(name.to_string());
+                            }
+                        }
+                    }
+                },
+                _ => {},
+            }
+            i += 1;
+        }
+    }
+    let mut files = Vec::new();
+    rs_files(&repo.join("src"), &mut files);
+    let (mut upper, mut lower) = (std::collections::BTreeSet::new(), std::collections::BTreeSet::new());
+    for f in files {
+        if let Ok(src) = std::fs::read_to_string(&f) {
+            if let Ok(ts) = src.parse::<TokenStream>() {
+                walk(ts, false, &mut upper, &mut lower);
+            }
+        }
+    }
+    (upper.into_iter().collect(), lower.into_iter().collect())
 }
